@@ -203,6 +203,7 @@ pub fn variant_holder(name: &str, r: &Record, shape: Shape) -> Arc<Decl> {
         name: name.to_string(),
         body: DeclBody::Enum {
             sorted: false,
+            steps: vec![],
             variants: vec![
                 Variant { name: "Nil".into(), shape: Shape::Unit, transient: false, record: Record { fields: vec![], steps: vec![] } },
                 Variant { name: "Rec".into(), shape, transient: false, record: r.clone() },
@@ -418,15 +419,24 @@ pub fn build_enum_family(name: &str, spec: &EnumSpec, menu: &[Ty]) -> Vec<Arc<De
     if variants.iter().all(|v| v.transient) {
         variants[0].transient = false;
     }
-    let mut out = vec![Arc::new(Decl { name: format!("{name}A"), body: DeclBody::Enum { sorted: spec.sorted, variants: variants.clone() } })];
+    // evolution steps on the enum itself (one family in three): none on E, one on E', more on E'' — the extensions
+    // are later versions of the type in this sense too
+    let own = |k: usize| -> Vec<Step> {
+        let all = [Step::Removed { name: "legacy".into() }, Step::Added { name: "shadow".into(), default: Val::Unit }, Step::MadeTransient { name: "_memo".into() }];
+        match spec.name_seed % 3 {
+            0 => all[..(k * 2).min(3)].to_vec(),
+            _ => vec![],
+        }
+    };
+    let mut out = vec![Arc::new(Decl { name: format!("{name}A"), body: DeclBody::Enum { sorted: spec.sorted, variants: variants.clone(), steps: own(0) } })];
     for (i, vs) in spec.ext1.iter().enumerate() {
         variants.push(build_variant(format!("Zza{i}"), vs, menu));
     }
-    out.push(Arc::new(Decl { name: format!("{name}B"), body: DeclBody::Enum { sorted: spec.sorted, variants: variants.clone() } }));
+    out.push(Arc::new(Decl { name: format!("{name}B"), body: DeclBody::Enum { sorted: spec.sorted, variants: variants.clone(), steps: own(1) } }));
     for (i, vs) in spec.ext2.iter().enumerate() {
         variants.push(build_variant(format!("Zzb{i}"), vs, menu));
     }
-    out.push(Arc::new(Decl { name: format!("{name}C"), body: DeclBody::Enum { sorted: spec.sorted, variants } }));
+    out.push(Arc::new(Decl { name: format!("{name}C"), body: DeclBody::Enum { sorted: spec.sorted, variants, steps: own(2) } }));
     out
 }
 
@@ -530,6 +540,7 @@ pub fn fixed_decls() -> Vec<Arc<Decl>> {
         name: "FixEnum".into(),
         body: DeclBody::Enum {
             sorted: false,
+            steps: vec![],
             variants: vec![
                 Variant { name: "A".into(), shape: Shape::Unit, transient: false, record: unit.clone() },
                 Variant { name: "B".into(), shape: Shape::Tuple, transient: false, record: Record { fields: vec![f("field0", Str)], steps: vec![] } },
@@ -617,6 +628,7 @@ pub fn compiled_batch(seed: u64, n_hist: usize, n_fam: usize) -> Batch {
         name: "RecEnum".into(),
         body: DeclBody::Enum {
             sorted: false,
+            steps: vec![],
             variants: vec![
                 Variant { name: "Leaf".into(), shape: Shape::Tuple, transient: false, record: Record { fields: vec![f("field0", Ty::U8)], steps: vec![] } },
                 Variant { name: "Node".into(), shape: Shape::Struct, transient: false, record: Record { fields: vec![f("l", Ty::Box(a(Ty::Rec("RecEnum".into())))), f("r", Ty::Option(a(Ty::Box(a(Ty::Rec("RecEnum".into()))))))], steps: vec![] } },
@@ -637,8 +649,8 @@ pub fn compiled_batch(seed: u64, n_hist: usize, n_fam: usize) -> Batch {
     // unit-only enums with explicit discriminants (render.rs spells them for names starting with "Disc"): constructor
     // ids are positions, whatever the discriminants say
     let unit = |n: &str| Variant { name: n.into(), shape: Shape::Unit, transient: false, record: Record { fields: vec![], steps: vec![] } };
-    specials.push(Arc::new(Decl { name: "DiscU".into(), body: DeclBody::Enum { sorted: false, variants: vec![unit("Low"), unit("High"), unit("Critical"), unit("Boom")] } }));
-    specials.push(Arc::new(Decl { name: "DiscS".into(), body: DeclBody::Enum { sorted: true, variants: vec![unit("Pear"), unit("Apple"), unit("Quince")] } }));
+    specials.push(Arc::new(Decl { name: "DiscU".into(), body: DeclBody::Enum { sorted: false, steps: vec![], variants: vec![unit("Low"), unit("High"), unit("Critical"), unit("Boom")] } }));
+    specials.push(Arc::new(Decl { name: "DiscS".into(), body: DeclBody::Enum { sorted: true, steps: vec![], variants: vec![unit("Pear"), unit("Apple"), unit("Quince")] } }));
     // two pairs of declarations with the SAME identifier in different modules and different histories (vgen puts the
     // `..Other` one into a module of its own and aliases it)
     specials.push(struct_decl("Twin", &Record { fields: vec![f("id", Ty::U32), f("name", Ty::Str)], steps: vec![Step::Added { name: "name".into(), default: Val::str("anon") }] }));
@@ -650,6 +662,7 @@ pub fn compiled_batch(seed: u64, n_hist: usize, n_fam: usize) -> Batch {
         name: "TwinE".into(),
         body: DeclBody::Enum {
             sorted: false,
+            steps: vec![],
             variants: vec![
                 Variant { name: "Circle".into(), shape: Shape::Struct, transient: false, record: Record { fields: vec![f("r", Ty::U8)], steps: vec![] } },
                 Variant { name: "Dot".into(), shape: Shape::Unit, transient: false, record: Record { fields: vec![], steps: vec![] } },
@@ -660,6 +673,7 @@ pub fn compiled_batch(seed: u64, n_hist: usize, n_fam: usize) -> Batch {
         name: "TwinEOther".into(),
         body: DeclBody::Enum {
             sorted: false,
+            steps: vec![],
             variants: vec![
                 Variant { name: "Dot".into(), shape: Shape::Unit, transient: false, record: Record { fields: vec![], steps: vec![Step::Removed { name: "weight".into() }] } },
                 Variant {
@@ -745,6 +759,7 @@ pub fn golden_model() -> Ty {
         name: "DynListElement2".into(),
         body: DeclBody::Enum {
             sorted: true,
+            steps: vec![],
             variants: vec![
                 Variant { name: "First".into(), shape: Shape::Struct, transient: false, record: plain(vec![f("elem", list_element1.clone())]) },
                 Variant {
